@@ -142,6 +142,8 @@ class BoundIO:
         if len(self.buf) + blen > self.maxbytes:
             self.buf = self.buf[blen:]
         self.buf += b
+        if len(self.buf) > self.maxbytes:
+            self.buf = self.buf[len(self.buf) - self.maxbytes:]
 
     def getvalue(self):
         return self.buf
